@@ -799,7 +799,8 @@ func c07errflow(c *an.Ctx) {
 					}
 				}
 			}
-			gc.LoopVisitsAll(r2, test, "every value of the column is tested for NaN/Inf (the loop has no early exit)")
+			// (an iteration may skip the test once the flag is set: it never goes back to false)
+			gc.LoopVisitsAll(r2, test, "every value of the column is tested for NaN/Inf (the loop has no early exit)", an.AtomLike(`\.extremeDataValues$`, true))
 		}
 	}
 	if ae := fn(r2, cmpPkg+":Float.adaptiveEncoding"); ae != nil {
